@@ -407,7 +407,7 @@ func randPeriod(r *rand.Rand, pool []string) string {
 // (nothing here touches shared state: each tie and monitor is its own object).
 func prepTime(f lib.Flags, res *lib.Result) func(drv *lib.Driver) {
 	mon := res.Monitor("time-semantics",
-		"every tie case is also checked against an independent math/big oracle: sign of the ns difference, interval overlap/touch, symmetry, nil => false")
+		"every tie case is also checked against an independent math/big oracle: sign of the ns difference, interval overlap/touch, symmetry, nil => false; the timestamps / periods handed to an operation compared before/after, and (sampled: the first cases of every operation, then every n-th) once more with the arguments in read-only pages, where any store into them during the call faults (watch.go)")
 	k2 := res.Tie("periods-exhaustive", "K2",
 		"all ordered pairs of periods (incl. nil) with endpoints in {unbounded, 0..5}s x nanos {0,1,999999999}, both predicates; distinct = distinct (op,p,q); non-trivial = both periods non-nil")
 	k2.Exhaustive = true
